@@ -178,6 +178,11 @@ func genMergeInputs(c *ctx, k int, syn bool) []*segEnt {
 	}
 	base.VocabN = 2 + c.R.Intn(6)
 	var pool []*segEnt
+	// field lists of equal length that differ: every input draws its own subset of this size
+	subsetSize := 0
+	if c.R.Chance(3) {
+		subsetSize = 1 + c.R.Intn(4)
+	}
 	for i := 0; i < k; i++ {
 		o := base
 		o.NDocs = c.R.Intn(8)
@@ -195,6 +200,17 @@ func genMergeInputs(c *ctx, k int, syn bool) []*segEnt {
 			o.FixedFields = false
 		default:
 			o.NFields = 1 + c.R.Intn(len(zh.FieldNames))
+		}
+		if subsetSize > 0 {
+			perm := make([]int, len(zh.FieldNames))
+			for j := range perm {
+				perm[j] = j
+			}
+			for j := range perm {
+				q := j + c.R.Intn(len(perm)-j)
+				perm[j], perm[q] = perm[q], perm[j]
+			}
+			o.FieldSel, o.NFields, o.FixedFields = perm[:subsetSize], subsetSize, true
 		}
 		b := zh.GenBatch(c.R, o)
 		if c.R.Chance(3) {
@@ -411,10 +427,14 @@ func storedAPIFromSpec(c *ctx, seg segment.Segment, spec sx.V) (bad string) {
 func init() { register("C06", checkC06) }
 
 func checkC06(c *ctx) {
-	c.Rule = "the C05 merge-chain generator with token-level content (shared vocabulary so terms occur in several segments; one third of the pools use frequency-1 tokens without locations so that merges write single-hit dictionary entries and later merges read them; byte-copy path when field lists are identical) x merge chunk modes {1,2,3,1024,1025,1026}; observed: complete dictionary/postings dump and doc-value visits of the re-opened output + the extracted parser's reading of the file; expected = extracted spec_merge; plus boundary merges where a term has 1023/1024/1025 postings before or after deletions; non-trivial = >= 2 inputs and >= 2 survivors"
+	c.Rule = "the C05 merge-chain generator with token-level content (shared vocabulary so terms occur in several segments; one third of the pools use frequency-1 tokens without locations so that merges write single-hit dictionary entries and later merges read them; byte-copy path when field lists are identical) x merge chunk modes {1,2,3,1024,1025,1026}; observed: complete dictionary/postings dump and doc-value visits of the re-opened output + the extracted parser's reading of the file; expected = extracted spec_merge; plus boundary merges where a term has 1023/1024/1025 postings before or after deletions; plus the merge enumerator itself (verif hook VerifEnumerate over real vellum FSTs: 1-5 sorted key/value lists with the empty key, shared keys, single-hit codes, the empty key with value 0) against the extracted Enum.enumerate; non-trivial = >= 2 inputs and >= 2 survivors"
 	c.Assumptions = append(c.Assumptions, "W3: analysed length >= 1 for a field instance with a token (single-hit encoding uses normBits != 0 as its marker)",
 		"the list of visitable doc-value fields of a merged segment is compared only on fields that still have a term (DESIGN.md 9)")
 	parts := []int{pDicts, pDVFields, pDV}
+	if bad := enumeratorCorrespondence(c, c.n(400, 20000)); bad != "" {
+		c.Violation("C06 "+bad, false)
+		return
+	}
 	if !mergeRounds(c, c.n(110, 2500), false, parts, false, "C06", nil) {
 		return
 	}
